@@ -48,15 +48,16 @@ impl Property for C12 {
             knobs: Knobs { max_nodes: 24, max_ops: 12, variant, ..Default::default() },
         };
         match tier {
-            Tier::Quick => vec![mk("clone_node", 60_000, 0), mk("clone_with_prefixes", 500_000, 1), mk("xot_clone", 20_000, 2)],
-            Tier::Thorough => vec![mk("clone_node", 600_000, 0), mk("clone_with_prefixes", 2_000_000, 1), mk("xot_clone", 100_000, 2)],
+            Tier::Quick => vec![mk("clone_node", 60_000, 0), mk("clone_with_prefixes", 400_000, 1), mk("cwp-stripped", 300_000, 3), mk("xot_clone", 20_000, 2)],
+            Tier::Thorough => vec![mk("clone_node", 600_000, 0), mk("clone_with_prefixes", 2_000_000, 1), mk("cwp-stripped", 1_500_000, 3), mk("xot_clone", 100_000, 2)],
         }
     }
 
     fn check(&self, src: &mut Src, ctx: &mut Ctx) -> Verdict {
         match ctx.knobs.variant {
             0 => self.clone_node(src, ctx),
-            1 => self.clone_with_prefixes(src, ctx),
+            1 => self.clone_with_prefixes(src, ctx, false),
+            3 => self.clone_with_prefixes(src, ctx, true),
             _ => self.xot_clone(src, ctx),
         }
     }
@@ -184,16 +185,38 @@ impl C12 {
         Verdict::Pass
     }
 
-    fn clone_with_prefixes(&self, src: &mut Src, ctx: &mut Ctx) -> Verdict {
+    fn clone_with_prefixes(&self, src: &mut Src, ctx: &mut Ctx, stripped: bool) -> Verdict {
         let mut o = TreeOpts::xml(ctx.knobs.max_nodes);
         o.alpha = Alpha::Tiny;
         o.attr_alpha = Alpha::Tiny;
-        o.scoping = if src.ratio(3, 4) { Scoping::Well } else { Scoping::Free };
+        o.scoping = if stripped || src.ratio(3, 4) { Scoping::Well } else { Scoping::Free };
         o.xml_attrs = true;
         // alias prefixes and re-declarations make "bound outside, shadowed inside" layouts frequent
         o.redundant_decls = src.bool();
         o.max_depth = 7;
-        let doc = if src.bool() { gen::gen_document(src, &o) } else { gen::gen_element_tree(src, &o) };
+        let mut doc = if src.bool() { gen::gen_document(src, &o) } else { gen::gen_element_tree(src, &o) };
+        if stripped {
+            // plan cwp-stripped: the layout only the API can build and the serializer repairs on
+            // the fly — no-namespace elements below a default namespace WITHOUT their protecting
+            // xmlns="" — in an otherwise well-scoped tree, so that the source does serialise in
+            // place; extra default declarations make the situation frequent
+            fn strip(n: &mut ANode, src: &mut Src) {
+                if let ANode::Element(e) = n {
+                    if e.name.ns.is_empty() && src.ratio(3, 4) {
+                        e.decls.retain(|(p, u)| !(p.is_empty() && u.is_empty()));
+                    }
+                    if !e.name.ns.is_empty() && !e.decls.iter().any(|(p, _)| p.is_empty()) && src.ratio(1, 3) {
+                        e.decls.push((String::new(), e.name.ns.clone()));
+                    }
+                }
+                if let Some(ch) = n.children_mut() {
+                    for c in ch.iter_mut() {
+                        strip(c, src);
+                    }
+                }
+            }
+            strip(&mut doc, src);
+        }
         let mut xot = Xot::new();
         let mut hs = vec![];
         let root = match bridge::build(&mut xot, &doc, &mut hs) {
@@ -223,6 +246,16 @@ impl C12 {
         if !under_default.is_empty() && src.ratio(1, 3) {
             e = under_default[src.choice_big(under_default.len())];
             ctx.label("no_ns_element_under_default_ns");
+        }
+        // ... or an ancestor of such an element: inside the clone the default namespace is then
+        // undeclared for a subtree whose names may need a prefix from outside the clone
+        if !under_default.is_empty() && src.ratio(1, 3) {
+            let u = under_default[src.choice_big(under_default.len())];
+            let ups: Vec<Node> = xot.ancestors(u).take(10_000).filter(|a| *a != u && xot.is_element(*a)).collect();
+            if !ups.is_empty() {
+                e = ups[src.choice_big(ups.len())];
+                ctx.label("clone_contains_no_ns_element_under_default_ns");
+            }
         }
         ctx.fingerprint(&(doc.clone(), els.iter().position(|x| *x == e)));
         ctx.rendering(|| doc.show());
